@@ -256,4 +256,26 @@ def outcome? {R : Type} (s : St R) (r : Nat) : Option (Outcome R) :=
     | _ => none
   | none => none
 
+/-! ### variant: a non-atomic `__delitem__` (seeded defect, refuted in `Properties/C13.lean`)
+
+`del db[k]` split into two critical sections, the generation bump first (`delBump`), the removal of the
+entry second (`delRemove k`), any other thread being free to run in between. -/
+inductive SLabel
+  | base (l : Label)
+  | delBump
+  | delRemove (k : Key)
+  deriving DecidableEq, Repr
+
+def stepSplit {R : Type} (m : Mode) (post : Store → R) (s : St R) : SLabel → Option (St R)
+  | .base l => step m post s l
+  | .delBump => some { s with gen := s.gen + 1, hist := s.hist ++ [s.store] }
+  | .delRemove k => some { s with store := storeDel s.store k }
+
+def runSplit {R : Type} (m : Mode) (post : Store → R) (s : St R) : List SLabel → Option (St R)
+  | [] => some s
+  | l :: ls =>
+    match stepSplit m post s l with
+    | some s' => runSplit m post s' ls
+    | none => none
+
 end SnootyVerif.PageDb
